@@ -88,7 +88,8 @@ func (d *EventTriggerDefinition) MarshalBytes() []byte {
 // Validate checks if the event trigger definition is valid.
 //
 // A trigger definition is valid if
-//   - all log predicates are valid and
+//   - all log predicates are valid (including that the argument of a BytesEq predicate for a
+//     topic is a 32-byte value) and
 //   - there are no two log BytesEq predicates for the same topic
 func (d *EventTriggerDefinition) Validate() error {
 	for i, lp := range d.LogPredicates {
@@ -184,6 +185,13 @@ func (p *LogPredicate) Validate() error {
 	}
 	if err := p.ValuePredicate.Validate(); err != nil {
 		return err
+	}
+	// A topic is always exactly one word, and ToFilterQuery can only express BytesEq predicates
+	// on topics whose argument is a whole word.
+	if p.LogValueRef.IsTopic() && p.ValuePredicate.Op == BytesEq {
+		if n := len(p.ValuePredicate.ByteArgs[0]); n != Word {
+			return fmt.Errorf("BytesEq predicate for topic %d must have a 32-byte argument, got %d bytes", p.LogValueRef.Offset, n)
+		}
 	}
 	return nil
 }
